@@ -203,7 +203,7 @@ def write_evidence(ctx: Ctx, res: Result, wall: float, n_viol: int, n_known: int
     return path
 
 
-def write_replay(ctx: Ctx, n: int, v: Violation) -> str:
+def write_replay(ctx: Ctx, n, v: Violation) -> str:
     os.makedirs(REPLAY_DIR, exist_ok=True)
     path = os.path.join(REPLAY_DIR, f"{ctx.prop}-{n}.json")
     with open(path, "w") as f:
@@ -221,10 +221,12 @@ def finish(ctx: Ctx, res: Result, t0: float) -> int:
     replay artefacts, print the interface lines, return the exit status."""
     known = known_keys(ctx.prop)
     seen_known: dict[str, str] = {}
+    known_v: dict[str, Violation] = {}
     new: dict[str, Violation] = {}
     for v in res.violations:
         if v.key in known:
             seen_known.setdefault(v.key, v.what)
+            known_v.setdefault(v.key, v)
         else:
             new.setdefault(v.key, v)
     for k, what in sorted(seen_known.items()):
@@ -247,6 +249,11 @@ def finish(ctx: Ctx, res: Result, t0: float) -> int:
         print(f"  violation key={k}: {v.what}")
         print(f"VIOLATION property={ctx.prop} replay={path}")
         rc = 1
+    # the listed findings stay reproducible too: one replay artefact each (not a VIOLATION line)
+    for n, (k, v) in enumerate(sorted(known_v.items())):
+        if n >= 60:
+            break
+        write_replay(ctx, f"known-{n}", v)
     wall = time.time() - t0
     path = write_evidence(ctx, res, wall, len(new), len(seen_known))
     for note in res.notes:
